@@ -44,3 +44,28 @@ func VerifAscDecode() {
 	}
 	symapi.Reach("end")
 }
+
+// VerifAscExplicitFrequency: samplingFrequencyIndex 0xf is followed by the 24-bit sampling
+// frequency itself (1.6.2.1): the reported sample rate is exactly that value, the channel
+// configuration follows it.
+func VerifAscExplicitFrequency() {
+	ot := symapi.Byte("objectType")
+	symapi.Assume(ot >= 1 && ot <= 4)
+	f := symapi.Uint32("frequency")
+	symapi.Assume(f < 1<<24)
+	ch := symapi.Byte("channelConfiguration")
+	symapi.Assume(ch >= 1 && ch <= 7)
+	// 5 bits object type, 4 bits 0xf, 24 bits frequency, 4 bits channel configuration, 3 bits GASpecificConfig (0)
+	v := uint64(ot)<<35 | uint64(0xf)<<31 | uint64(f)<<7 | uint64(ch)<<3
+	b := []byte{byte(v >> 32), byte(v >> 24), byte(v >> 16), byte(v >> 8), byte(v)}
+	var asc AudioSpecificConfig
+	symapi.Assert(asc.Decode(b) == nil, "explicit-frequency-config-accepted")
+	symapi.Assert(asc.ObjectType == ot && asc.SamplingIndex == 15, "object-type-and-escape-index")
+	symapi.Assert(asc.SampleRate == int(f), "reported-sample-rate-is-the-explicit-frequency")
+	symapi.Assert(asc.ChannelConfig == ch, "channel-configuration-after-the-explicit-frequency")
+	am := &codec.AudioMeta{Codec: "AAC", Sps: b}
+	if f != 0 {
+		symapi.Assert(MetadataIsReady(am) && am.SampleRate == int(f), "stream-reports-the-explicit-frequency")
+	}
+	symapi.Reach("end")
+}
